@@ -121,11 +121,9 @@ def run_job(mc, drv, fmode=0, max_stims=None, seed=0, shard_size=None, keep=Fals
             idxs = sorted(rnd.sample(range(len(lines)), max_stims))
             lines = [lines[i] for i in idxs]
         if shard_size is None:
-            shard_size = 250 if fmode >= 2 else (400 if fmode == 1 else 2500)
-        # never fewer shards than cores when there is enough work
+            # a TLC process costs ~3 s before its first line; aim for >= ~25k trace lines per shard
+            shard_size = 500 if fmode >= 2 else (1200 if fmode == 1 else 6000)
         nshards = max(1, (len(lines) + shard_size - 1) // shard_size)
-        if len(lines) >= 4 * P.NCPU:
-            nshards = max(nshards, P.NCPU)
         per = (len(lines) + nshards - 1) // nshards
         shards = [lines[i:i + per] for i in range(0, len(lines), per)]
         futs = [pool().submit(_run_shard, jobdir, i, sh, d['exe'], fmode, d['name'], d['conf']['san'], keep)
